@@ -26,6 +26,7 @@ var specs = []stack.LayerSpec{
 	{Name: "landmark2", Files: []stack.File{{Path: "a", Size: 9}, {Path: "b", Size: 5}, {Path: "d/c", Size: 4}}, Prioritized: []string{"d/c", "a"}, ChunkSize: 4},
 	{Name: "noprefetch", Files: []stack.File{{Path: "a", Size: 9}, {Path: "b", Size: 5}}, ChunkSize: 4},
 	{Name: "nolandmark", Files: []stack.File{{Path: "a", Size: 9}, {Path: "b", Size: 5}}, ChunkSize: 4, NoLandmark: true},
+	{Name: "tiny", Files: []stack.File{{Path: "a", Size: 3}}, Prioritized: []string{"a"}, ChunkSize: 4},
 	{Name: "minchunk", Files: []stack.File{{Path: "a", Size: 9}, {Path: "b", Size: 5}, {Path: "c", Size: 2}}, Prioritized: []string{"b"}, ChunkSize: 4, MinChunk: 16},
 }
 
@@ -456,8 +457,15 @@ func concScenario(sc concScen, scratch string) *vexp.Scenario {
 }
 
 func concScens(tier string) []concScen {
-	l1 := int64(len(built[0].Blob))
-	base := cfgT{Layer: 0, PrefetchSize: l1, PrefetchCh: 0, RegChunk: 64}
+	// the one-file layer "tiny" keeps executions short
+	tiny := 0
+	for i, sp := range specs {
+		if sp.Name == "tiny" {
+			tiny = i
+		}
+	}
+	l1 := int64(len(built[tiny].Blob))
+	base := cfgT{Layer: tiny, PrefetchSize: l1, PrefetchCh: 0, RegChunk: 512}
 	var out []concScen
 	out = append(out, concScen{Cfg: base, Threads: [][]string{{"P"}, {"W"}}})
 	out = append(out, concScen{Cfg: base, Threads: [][]string{{"P"}, {"W"}, {"W"}}})
